@@ -176,6 +176,14 @@ func shouldProxy(method, urlPath string) (ok bool) {
 		return false
 	}
 
+	// Don't proxy paths containing dot segments, since those resolve to paths
+	// outside of the proxied API once they are normalized.
+	for _, part := range parts {
+		if part == "." || part == ".." {
+			return false
+		}
+	}
+
 	switch method {
 	case http.MethodGet:
 		return shouldProxyGet(parts)
